@@ -639,6 +639,27 @@ func runC05(c *eng.Ctx) {
 	// mutex is not what separates readers from writers.)
 	c.CheckLockPairs("PAIR-section", "weed/storage/needle_map", "CompactSection.RWMutex", nil)
 	c.Expect("PAIR-section", 4)
+
+	// ---------------------------------------------------------------- INIT-append-position
+	// every needle map that appends to the index file starts appending at the file's end: the constructor that
+	// installs the index file also sets the append position from the file's size
+	nInit := 0
+	for _, fn := range c.P.SrcFuncs("weed/storage") {
+		sets := eng.Find(fn, eng.StoreToField("baseNeedleMapper.indexFile"))
+		if len(sets) == 0 {
+			continue
+		}
+		nInit++
+		c.Touch(fn)
+		okInit := false
+		for _, st := range eng.Find(fn, eng.StoreToField("baseNeedleMapper.indexFileOffset")) {
+			if eng.MentionsCall(st.(*ssa.Store).Val, "os.FileInfo).Size", "fs.FileInfo).Size") {
+				okInit = true
+			}
+		}
+		c.Ob("INIT-append-position", eng.FuncName(fn), okInit, sets[0].Pos(), "the append position of the index file is initialised from the file's size where the index file is installed")
+	}
+	c.Expect("INIT-append-position", 3)
 }
 
 // arraysOf names the parallel arrays of CompactSection an instruction touches: the array whose
